@@ -3,6 +3,8 @@ import Moclo.Proofs.Screen
 import Moclo.Props.C02
 import Moclo.Tables.Kits
 import Moclo.Tables.Enzymes
+import Moclo.Proofs.ThreePrime
+import Moclo.Tables.Enzymes3
 /-!
 # C04 — reported overhangs and fragments are true restriction fragments of the cutter
 
@@ -149,6 +151,77 @@ theorem no_inner_cut (g : Geom) (up down : List Nt) (hu : up.length = g.k) (hd :
     have f1 : isFixed g.k (lits up) = true := by rw [← hu]; simp [isFixed, lits]
     have f3 : isFixed g.k (lits down) = true := by rw [← hd]; simp [isFixed, lits]
     exact no_inner_cut_of_screen hbase hnp hs1 mg2 f1 f3 h hscreen
+
+/-! ## cutters that leave a 3' overhang (signature-typed part classes; beyond the kits' own cutters) -/
+
+/-- acceptance is the same function: the illegal-site screen of a 3' cutter counts the same cuts -/
+theorem three_prime_same_screen (c : ClassSpec) (w : Word) : c.matchSeq3 w = c.matchSeq w := matchSeq3_eq c w
+
+/-- **fragments of an accepted record, 3' cutter**: the overhangs are the same stretches `text[a1, a1+k)` and
+`text[b2, b2+k)`; a module's target now runs from the end of the first overhang to the end of the second
+(leading overhang excluded, trailing one included — the mirror image of the 5' rule), a vector's target is the
+complementary stretch, and a vector's placeholder is the contiguous stretch `text[a1+k, b2+k)` -/
+theorem three_prime_fragments {c : ClassSpec} {w : Word} {i : Nat} {rel : List Nat}
+    (hca : cutAligned c.geom c.pat = true) (h3 : C02.ThreeGroups c.pat) (hi : i < w.length)
+    (hrel : relMatch c.pat (window w i) = some rel)
+    (hs : search c.pat w true = some ⟨i :: rel.reverse.map (· + i)⟩)
+    {up down tgt ph : Word} (hrep : report3 c w = .ok (up, down, tgt, ph)) :
+    ∃ a1 b2 e, rel.reverse = [a1, a1 + c.geom.k, a1 + c.geom.k, b2, b2, b2 + c.geom.k, e] ∧
+      a1 + c.geom.k ≤ b2 ∧ b2 + c.geom.k ≤ (window w i).length ∧
+      (match c.kind with
+       | .module => up = slice (window w i) a1 (a1 + c.geom.k) ∧ down = slice (window w i) b2 (b2 + c.geom.k) ∧
+                    tgt = slice (window w i) (a1 + c.geom.k) (b2 + c.geom.k)
+       | .vector => down = slice (window w i) a1 (a1 + c.geom.k) ∧ up = slice (window w i) b2 (b2 + c.geom.k) ∧
+                    tgt = (window w i).drop (b2 + c.geom.k) ++ (window w i).take (a1 + c.geom.k) ∧
+                    ph = slice (window w i) (a1 + c.geom.k) (b2 + c.geom.k)) := by
+  obtain ⟨a1, b2, e, hrs, h1, h2, h4, _, _⟩ := marks_and_sites hca hrel
+  rw [report3_of_view h3 hi hrel hs] at hrep
+  split at hrep
+  · cases hrep
+  · simp only [Except.ok.injEq, Prod.mk.injEq] at hrep
+    obtain ⟨e1, e2, e3, e4⟩ := hrep
+    refine ⟨a1, b2, e, hrs, h1, by omega, ?_⟩
+    cases hk : c.kind
+    · simp only [ClassSpec.upGroup, ClassSpec.downGroup, hk] at e1 e2 e3
+      simp only []
+      refine ⟨?_, ?_, ?_⟩
+      · rw [← e1, hrs]; simp [vgroup, rspan]
+      · rw [← e2, hrs]; simp [vgroup, rspan]
+      · rw [← e3, hrs]; simp [vTarget3, rspan, hk]
+    · simp only [ClassSpec.upGroup, ClassSpec.downGroup, hk] at e1 e2 e3 e4
+      simp only []
+      refine ⟨?_, ?_, ?_, ?_⟩
+      · rw [← e2, hrs]; simp [vgroup, rspan]
+      · rw [← e1, hrs]; simp [vgroup, rspan]
+      · rw [← e3, hrs]; simp [vTarget3, rspan, hk]
+      · rw [← e4, hrs]
+        simp only [vgroup, rspan, slice]
+        simp
+        -- text[a1+k, b2) ++ text[b2, b2+k) = text[a1+k, b2+k)
+        have hsplit : b2 + c.geom.k - (a1 + c.geom.k) = (b2 - (a1 + c.geom.k)) + c.geom.k := by omega
+        rw [hsplit, List.take_add]
+        congr 2
+        rw [List.drop_drop]
+        congr 1
+        omega
+
+/-- … and placeholder and target still tile the plasmid -/
+theorem three_prime_tile (w : Word) (i a1 b2 k : Nat) (hi : i < w.length) (h1 : a1 + k ≤ b2) (h2 : b2 + k ≤ w.length) :
+    (slice (window w i) (a1 + k) (b2 + k) ++ ((window w i).drop (b2 + k) ++ (window w i).take (a1 + k))) ~r w :=
+  placeholder_target_isRotated w i (a1 + k) (b2 + k) hi (by omega) h2
+
+/-- the signature-typed structures over every single-cut 3'-overhang enzyme of `Bio.Restriction` with an
+unambiguous site are the same closed forms as for a 5' cutter with the same `(site, off, k)`, and are
+cut-aligned (kernel-checked on the regenerated table) -/
+theorem three_prime_structures : ∀ r ∈ Generated.enzymes3,
+    r.modP = modulePartStructure (Tables.Enz3Row.geom r) r.up r.down ∧
+    r.vecP = vectorPartStructure (Tables.Enz3Row.geom r) r.up r.down ∧
+    cutAligned (Tables.Enz3Row.geom r) r.modP = true ∧ cutAligned (Tables.Enz3Row.geom r) r.vecP = true := by
+  intro r hr
+  have := List.all_eq_true.mp Tables.enzymes3_ok r hr
+  simp only [Tables.Enz3Row.ok, Bool.and_eq_true, beq_iff_eq, decide_eq_true_eq] at this
+  obtain ⟨⟨⟨⟨⟨⟨_, hm⟩, hv⟩, _⟩, _⟩, c1⟩, c2⟩ := this
+  exact ⟨hm, hv, c1, c2⟩
 
 /-! non-vacuity: the toy module of C01/C02 -/
 example : cutAligned C02.g C02.c.pat = true := by decide
